@@ -60,11 +60,15 @@ class World:
         return self.index[id(c)]
 
     def add_pred(self, members):
-        """class predicate true exactly on the given class ids"""
+        """class predicate true exactly on the given class ids; counts its invocations in self.pred_calls"""
         ms = set(members)
         idx = self.index
+        if not hasattr(self, "pred_calls"):
+            self.pred_calls = [0]
+        calls = self.pred_calls
 
         def pred(cls, _ms=ms, _idx=idx):
+            calls[0] += 1
             return id(cls) in _idx and _idx[id(cls)] in _ms
 
         pred.__name__ = f"pred{len(self.preds)}"
